@@ -310,8 +310,7 @@ class AssignNormCont:
         after = dict(sh.__dict__)
         changed = [k for k in set(before) | set(after) if before.get(k) is not after.get(k)]
         M.true("assign_norm_cont/assigns", changed == ["norm_cont"], "attributes assigned: %s" % changed)
-        nc = sh.norm_cont
-        M.true("assign_norm_cont/shape", tuple(nc.shape) == (Mn, L), str(nc.shape))
+        nc = M.shaped("assign_norm_cont/shape", sh.norm_cont, (Mn, L))
         sO = M.to_spec(O)
         for m in range(Mn):
             for c in range(L):
@@ -474,6 +473,24 @@ class ShellSetters:
         rejected("coord-wrong-length", setter("coord", M.vec("bad5", 2)), (TypeError, ValueError))
         rejected("angmom-negative", setter("angmom", -1), (TypeError, ValueError))
         rejected("angmom-float", setter("angmom", 1.5), (TypeError, ValueError))
+        # an ACCEPTED update replaces what the shell holds; it never writes into the array the shell was given before - the
+        # caller, or another shell built on the same centre / exponent / coefficient array (make_contractions gives every
+        # shell of an atom the same centre array), still holds that one - nor into the new one
+        X, e0, d0 = M.vec("X", 3), M.vec("e0", K, "pos"), M.vec("d0", (K, 1))
+        s1 = make_shell(M, l, X, d0, e0, norm_cont=M.vec("n3", (1, (l + 1) * (l + 2) // 2), "pos"))
+        s2 = make_shell(M, 0, X, d0, e0, norm_cont=M.vec("n4", (1, 1), "pos"))
+        for attr, old, new in (("coord", X, M.vec("Y", 3)), ("exps", e0, M.vec("e1", K, "pos")), ("coeffs", d0, M.vec("d1", (K, 1)))):
+            old_vals, new_vals = [S_ for S_ in np.asarray(old, dtype=object).reshape(-1)], [S_ for S_ in np.asarray(new, dtype=object).reshape(-1)]
+            setattr(s1, attr, new)
+
+            def same(arr, vals):
+                flat = np.asarray(arr, dtype=object).reshape(-1)
+                return len(flat) == len(vals) and all(a is b or (not M.symbolic and a == b) for a, b in zip(flat, vals))
+
+            M.true("shell/setter/%s/accepted/previous-array-not-written" % attr, same(old, old_vals), "the array the shell held before still has its values")
+            M.true("shell/setter/%s/accepted/new-array-not-written" % attr, same(new, new_vals), "")
+            M.true("shell/setter/%s/accepted/other-shell-on-the-same-array-unmoved" % attr, same(getattr(s2, attr), old_vals), "a second shell built on the same array keeps its value")
+            M.true("shell/setter/%s/accepted/shell-holds-the-new-value" % attr, same(getattr(s1, attr), new_vals), "")
         pc = m["gbasis.integrals.point_charge"]
         pts, q = M.vec("R", (1, 3)), M.vec("q", 1)
         with bind.patched((pc.PointChargeIntegral, "boys_func", staticmethod(boys_stub(M)))):
